@@ -574,40 +574,85 @@ func (p *parser) literal() *ag.Expr {
 	return e
 }
 
+// class reads a character class the way the documented grammar does: ordered choice between
+// the [[ ]] form and the [ ] form, and inside each between "^ ranges" and "ranges" ('^' is then an
+// ordinary character); a range is "char - char" whenever a character follows the dash (even ']').
 func (p *parser) class() *ag.Expr {
-	e := &ag.Expr{K: ag.Class}
+	start, grey := p.pos, len(p.f.Grey)
+	var firstErr *syntaxError
+	try := func(ci, neg bool) (e *ag.Expr) {
+		defer func() {
+			if r := recover(); r != nil {
+				se, ok := r.(*syntaxError)
+				if !ok {
+					panic(r)
+				}
+				if firstErr == nil {
+					firstErr = se
+				}
+				p.pos, p.f.Grey, e = start, p.f.Grey[:grey], nil
+			}
+		}()
+		return p.classBody(ci, neg)
+	}
+	var e *ag.Expr
+	if p.has("[[") {
+		if e = try(true, true); e == nil {
+			e = try(true, false)
+		}
+	}
+	if e == nil {
+		if e = try(false, true); e == nil {
+			e = try(false, false)
+		}
+	}
+	if e == nil {
+		panic(firstErr)
+	}
+	p.spacing()
+	return e
+}
+
+func (p *parser) classBody(ci, neg bool) *ag.Expr {
+	e := &ag.Expr{K: ag.Class, CI: ci, Neg: neg}
 	closer := "]"
-	if p.eat("[[") {
-		e.CI = true
+	if ci {
 		closer = "]]"
+		p.pos += 2
 	} else {
-		p.next()
+		p.pos++
 	}
-	if p.eat("^") {
-		e.Neg = true
+	if neg && !p.eat("^") {
+		p.fail("no '^'")
 	}
-	for {
+	for !p.has(closer) {
 		if p.eof() {
 			p.fail("unterminated class")
-		}
-		if p.has(closer) {
-			p.pos += len(closer)
-			break
-		}
-		if e.CI && p.peek() == ']' {
-			p.fail("']' inside [[ ]]")
 		}
 		lo := p.char()
 		if e.CI && p.escaped && isIdentStart(lo) && lo != '_' {
 			p.f.Grey = append(p.f.Grey, "letter written as an escape inside a case-insensitive class")
 		}
 		hi := lo
-		if p.peek() == '-' && !strings.HasPrefix(p.src[p.pos+1:], closer) {
+		if p.peek() == '-' {
+			// "char - char" if a character can be read after the dash, else the dash is the next character
+			save, esc, ng := p.pos, p.escaped, len(p.f.Grey)
 			p.next()
-			hi = p.char()
-		} else if p.peek() == '-' {
-			// "a-]" : a dash must be followed by a character
-			p.fail("dangling '-' in class")
+			ok := func() (ok bool) {
+				defer func() {
+					if r := recover(); r != nil {
+						if _, is := r.(*syntaxError); !is {
+							panic(r)
+						}
+						ok = false
+					}
+				}()
+				hi = p.char()
+				return true
+			}()
+			if !ok {
+				p.pos, p.escaped, hi, p.f.Grey = save, esc, lo, p.f.Grey[:ng]
+			}
 		}
 		if lo > hi {
 			p.f.Grey = append(p.f.Grey, "reversed range")
@@ -627,6 +672,6 @@ func (p *parser) class() *ag.Expr {
 	if len(e.Items) == 0 {
 		p.fail("empty class")
 	}
-	p.spacing()
+	p.pos += len(closer)
 	return e
 }
